@@ -25,7 +25,7 @@ def log(*a):
 # run context
 # --------------------------------------------------------------------------
 class Run:
-    def __init__(self, pid, tier, seed):
+    def __init__(self, pid, tier, seed, keep_replays=False):
         self.pid, self.tier, self.seed = pid, tier, seed
         self.t0 = time.time()
         self.work = os.path.join(VERIF, ".work", "%s-%s-%d-%d" % (pid, tier, seed, os.getpid()))
@@ -38,8 +38,9 @@ class Run:
         self.known = []             # strings
         self.samples = []
         self.harness_bin = None
-        for f in glob.glob(os.path.join(VERIF, "replay", pid + "-*.json")):
-            os.remove(f)
+        if not keep_replays:
+            for f in glob.glob(os.path.join(VERIF, "replay", pid + "-*.json")):
+                os.remove(f)
 
     def path(self, *a):
         return os.path.join(self.work, *a)
